@@ -325,6 +325,7 @@ class Reference:
                 if e[0] == "v":
                     out.append(self.value(e[1], ctx))
                 elif e[0] == "sp":
+                    self._spread_operand(e[1], False)
                     x = self.value(e[1], ctx)
                     if e[1][0] == "dict":
                         raise Skip("literal dict spread into a list")
@@ -351,6 +352,7 @@ class Reference:
                         raise Skip("unhashable dict key")
                     out[key] = val
                 elif e[0] == "sp":
+                    self._spread_operand(e[1], True)
                     x = self.value(e[1], ctx)
                     if not isinstance(x, Mapping):
                         raise Skip("non-mapping spread into a dict")
@@ -361,6 +363,15 @@ class Reference:
                     raise ValueError(e)
             return out
         raise ValueError(v)
+
+    @staticmethod
+    def _spread_operand(v, in_dict):
+        if v[0] != "leaf":
+            return
+        if v[1][0] == "trans":
+            raise Skip("spread of a translation string (rejected by design: 'Cannot combine translation and spread')")
+        if in_dict and any(f[0] != "@spread" and f[1] is not None for f in v[2]):
+            raise Skip("dict spread operand with a filter argument (`:` reads as the key colon, pinned by the test suite)")
 
     def find_invalid(self, node):
         """True when the abstract tree contains a documented-invalid production (syntactic)."""
@@ -388,6 +399,7 @@ class Reference:
             elif a[0] == "kw":
                 params.append((a[1], self.value(a[2], ctx)))
             elif a[0] == "spread":
+                self._spread_operand(a[1], False)
                 x = self.value(a[1], ctx)
                 if isinstance(x, Mapping):
                     for kk, vv in x.items():
